@@ -13,6 +13,26 @@ NOTE_COMMON = (
 )
 
 CHECKS = {
+    "C03": dict(
+        technique="Lean 4 proof (induction over the pairwise track walk; passthrough transcoder lemma by induction on blocks) + end-to-end export correspondence",
+        text=(
+            "Machine-checked: for any number of audio tracks that all carry an INDEX line, any index values and any bin length, the walk of from_bin_cue yields exactly one window per track from (60m+s)*75+f sectors of 2352 bytes "
+            "to the next track's first index, the last to the end of the file (C03_walk/C03_windows); the windows tile the bin with no gap and no overlap (C03_tiling); with increasing indices inner windows are positive multiples of 2352 (C03_sizes); "
+            "and a CDDA track is transcoded to exactly the whole 4-byte frames of its window for EVERY internal block size and either host byte order (passLoop_flatten, C03_track_pcm). The window-to-bytes step is C08 (StreamOffset). "
+            "Tie: real end-to-end `export` of generated bin/cue pairs (1-8 tracks, tails 1,3,4,2351,2352,2353,random) compared with the bin slices, and model windows vs real windows incl. index-less tracks, data tracks, equal indices."
+        ),
+        design_ref="DESIGN.md §4 C03",
+    ),
+    "C04": dict(
+        technique="Lean 4 proof (the builder's output is accepted by an independent reading validator, by reader/writer lemmas) + byte-for-byte correspondence with the real WavSampleBuilder and exhaustive sweeps of the float-derived smpl fields",
+        text=(
+            "Machine-checked: C04_wellformed — for every header value for which building succeeds (every integer field is range-checked as struct.pack does), every 16-bit file whose data is a whole number of frames is accepted by an independent validator "
+            "(Spec/Riff.lean, written as a *reader*): RIFF size = len-8, 16-byte PCM fmt, optional smpl of size 36+24*loops (C04_smpl_size), data last, sizes adding up exactly, block align = channels*2, byte rate = rate*block align. "
+            "Frame alignment of the data is C12_tail/passLoop_flatten. The float-derived fields (round(1e9/rate), normalised pitch) are modelled with IEEE doubles and tied exhaustively: rate 1..65535 and all 256x256 (semitone, tuning) byte pairs (quick: 1/16 lattices). "
+            "Random generalized Samples (mono, split and interleaved stereo, 0-8 loops) are built by the real WavSampleBuilder and compared byte-for-byte with the model; every real file is also fed to the Lean validator, a Python restatement and stdlib wave."
+        ),
+        design_ref="DESIGN.md §4 C04",
+    ),
     "C07": dict(
         technique="Lean 4 proof (induction over chains and fuel; the AKAI walk is defined by well-founded recursion with a checked termination measure) + exhaustive correspondence over all small raw tables",
         text=(
@@ -44,6 +64,25 @@ CHECKS = {
             "It rests on the C08 class lemmas being stated for every store. Tie: every interleaving of 2-3 streams x small programs over 6 sharing topologies + random schedules, model vs real objects, and an isolated-run oracle."
         ),
         design_ref="DESIGN.md §4 C11",
+    ),
+    "C12": dict(
+        technique="Lean 4 proof (byte-order routing for every host and every process list; whole-frame lemma) + exhaustive lattice correspondence",
+        text=(
+            "Machine-checked: C12_swaps_host_independent — whichever of the three process lists make_transcoder builds and whatever the host byte order, channel c of a block has each sample byte-reversed exactly when its SOURCE STREAM's byte order differs from the destination's, "
+            "one flag per decoded channel in source order (this is the statement the pinned code violated; fix a59da5e); C12_channels (an accepted transcoder has one output channel per source channel), C12_tail (trailing bytes < 1 frame never reach the output), "
+            "passLoop_flatten (passthrough = whole frames for every block size, in Props/C03). NOT yet proved: the frame-by-frame statement C12_frames / C12_length for the pipeline loop (validated exhaustively by the lattice and the oracle). "
+            "Tie: exhaustive lattice 1..3 streams x {1,2,3} interleaved channels x width {1,2,4} x byte order per stream x lengths {0..3 frames + partial bytes} x block {1 frame, 2 frames, 4096} x host {LE, BE patched}, every source byte distinct."
+        ),
+        design_ref="DESIGN.md §4 C12",
+    ),
+    "C17": dict(
+        technique="Lean 4 proof (induction over the classified line list for the three nested consumers; list lemmas for strip) + hand-written regex matchers validated against the four re objects",
+        text=(
+            "Machine-checked: the parser is a function of the classified lines (C17_machine); a line's kind is unchanged by leading/trailing blanks from the whole str.strip set (C17_blanks, C17_blank_line); keyword recognition ignores letter case (C17_case); "
+            "text without a FILE line is rejected (C17_no_file); anything before the first FILE line is ignored (C17_before_file); after the first TRACK line, removing every unrecognised line and every blank line leaves every track's number, mode, title and index times unchanged, "
+            "for any number of tracks and any placement (C17_in_track, trackBody_filter). Tie: canonical sheets of 1-6 tracks with each cosmetic transformation at every line position, malformed sheets, and 10^4 (quick) / 10^5 generated near-miss lines through `classify` vs the real regexes."
+        ),
+        design_ref="DESIGN.md §4 C17",
     ),
     "C18": dict(
         technique="Lean 4 proof (decide +kernel over complete finite domains, induction for unbounded strings/ints) + translator-generated tables (Gen = model) + exhaustive correspondence",
